@@ -21,6 +21,7 @@ type Profile struct {
 	Reload   bool
 	Cascade  bool
 	HostileQ bool // ids and strings starting with "?"
+	Index       bool // rule patterns that share index prefixes; events instantiated from stored patterns
 	Dispatch    bool // rules with conditions and reporting / failing actions
 	MixedEvents bool // events may hold arrays of mixed scalar types (known finding D_UNSORTABLE_EVENT)
 	MaxFacts int
@@ -34,8 +35,9 @@ type Gen struct {
 	// (what the indexed state's rule index can take in an event).
 	Homogeneous bool
 	// T receives the action / condition scripts the generator invents.
-	T    *enc.Tables
-	nact int
+	T     *enc.Tables
+	nact  int
+	known []map[string]interface{} // when patterns of recently added rules
 }
 
 var homogeneous = [][]interface{}{{"x", "y", "tacos"}, {1.0, 2.0, 0.5}, {true, false}}
@@ -281,9 +283,165 @@ func (g *Gen) dispatchEvent() map[string]interface{} {
 	return m
 }
 
+var ixKeys = []string{"a", "b", "c"}
+var ixScalars = []interface{}{1.0, 2.0, "x", "y", true}
+
+func (g *Gen) ixValue(depth int) interface{} {
+	switch n := g.R.Intn(16); {
+	case n < 5:
+		return ixScalars[g.R.Intn(len(ixScalars))]
+	case n < 8:
+		return []string{"?x", "?y"}[g.R.Intn(2)]
+	case n < 11 && depth > 0:
+		m := map[string]interface{}{}
+		for i, k := 0, g.R.Intn(3); i < k; i++ {
+			m[[]string{"n", "p"}[g.R.Intn(2)]] = g.ixValue(depth - 1)
+		}
+		return m
+	case n < 14:
+		pools := [][]interface{}{{"x", "y", "z"}, {1.0, 2.0, 3.0}, {true, false}}
+		pool := pools[g.R.Intn(3)]
+		perm := g.R.Perm(len(pool))
+		a := []interface{}{}
+		for i, k := 0, g.R.Intn(3); i < k; i++ {
+			a = append(a, pool[perm[i]])
+		}
+		if g.R.Intn(3) == 0 && len(pool) > 0 {
+			if _, isStr := pool[0].(string); isStr || len(a) == 0 {
+				a = append(a, "?x")
+			}
+		}
+		return a
+	default:
+		return ixScalars[g.R.Intn(len(ixScalars))]
+	}
+}
+
+// ixPattern: when patterns over few keys, so that rules share index paths.
+func (g *Gen) ixPattern() map[string]interface{} {
+	m := map[string]interface{}{}
+	for i, k := 0, g.R.Intn(3); i < k; i++ {
+		m[ixKeys[g.R.Intn(len(ixKeys))]] = g.ixValue(2)
+	}
+	return m
+}
+
+// instantiate turns a pattern into an event it matches: variables get
+// values, maps and arrays get extra members.
+func (g *Gen) instantiate(p interface{}, bound map[string]interface{}) interface{} {
+	switch v := p.(type) {
+	case string:
+		if len(v) > 0 && v[0] == '?' {
+			if b, ok := bound[v]; ok {
+				return b
+			}
+			b := ixScalars[g.R.Intn(len(ixScalars))]
+			bound[v] = b
+			return b
+		}
+		return v
+	case map[string]interface{}:
+		m := map[string]interface{}{}
+		for k, e := range v {
+			m[k] = g.instantiate(e, bound)
+		}
+		if g.R.Intn(3) == 0 {
+			m[[]string{"n", "p", "q"}[g.R.Intn(3)]] = ixScalars[g.R.Intn(len(ixScalars))]
+		}
+		return m
+	case []interface{}:
+		a := []interface{}{}
+		var kind interface{}
+		for _, e := range v {
+			x := g.instantiate(e, bound)
+			a = append(a, x)
+			kind = x
+		}
+		if g.R.Intn(2) == 0 {
+			// an extra element of the same scalar type (keeps the event within what the rule index takes)
+			switch kind.(type) {
+			case string:
+				a = append(a, "w")
+			case float64:
+				a = append(a, 9.0)
+			}
+		}
+		// distinct elements only
+		seen := map[interface{}]bool{}
+		out := []interface{}{}
+		for _, e := range a {
+			switch e.(type) {
+			case string, float64, bool:
+				if seen[e] {
+					continue
+				}
+				seen[e] = true
+			}
+			out = append(out, e)
+		}
+		g.R.Shuffle(len(out), func(i, j int) { out[i], out[j] = out[j], out[i] })
+		return out
+	}
+	return p
+}
+
+func homogeneousArrays(x interface{}) bool {
+	switch v := x.(type) {
+	case map[string]interface{}:
+		for _, e := range v {
+			if !homogeneousArrays(e) {
+				return false
+			}
+		}
+	case []interface{}:
+		kind := ""
+		for _, e := range v {
+			k := fmt.Sprintf("%T", e)
+			if _, isMap := e.(map[string]interface{}); isMap || e == nil {
+				return len(v) == 1
+			}
+			if kind != "" && k != kind {
+				return false
+			}
+			kind = k
+		}
+	}
+	return true
+}
+
+func (g *Gen) ixEvent() map[string]interface{} {
+	var ev map[string]interface{}
+	if len(g.known) > 0 && g.R.Intn(5) > 0 {
+		ev = g.instantiate(g.known[g.R.Intn(len(g.known))], map[string]interface{}{}).(map[string]interface{})
+	} else {
+		ev = g.instantiate(g.ixPattern(), map[string]interface{}{}).(map[string]interface{})
+	}
+	if g.R.Intn(2) == 0 {
+		ev[ixKeys[g.R.Intn(len(ixKeys))]] = g.instantiate(g.ixValue(1), map[string]interface{}{})
+	}
+	if !g.P.MixedEvents && !homogeneousArrays(ev) {
+		return g.ixEvent()
+	}
+	return ev
+}
+
 func (g *Gen) Rule() map[string]interface{} {
 	if g.P.Dispatch {
 		return g.dispatchRule()
+	}
+	if g.P.Index {
+		p := g.ixPattern()
+		g.known = append(g.known, p)
+		if len(g.known) > 6 {
+			g.known = g.known[1:]
+		}
+		r := map[string]interface{}{"when": map[string]interface{}{"pattern": p}}
+		if g.R.Intn(2) == 0 {
+			r["action"] = map[string]interface{}{"code": []string{"1", "2", "3"}[g.R.Intn(3)]}
+		} else {
+			r["actions"] = []interface{}{map[string]interface{}{"code": []string{"4", "5"}[g.R.Intn(2)]}}
+		}
+		return r
 	}
 	r := map[string]interface{}{
 		"when": map[string]interface{}{"pattern": g.Pattern()},
@@ -368,12 +526,18 @@ func (g *Gen) Next() Op {
 		g.Homogeneous = !g.P.MixedEvents
 		op.Val, op.Inh = g.Fact(), g.P.Parents && g.R.Intn(2) == 0
 		g.Homogeneous = false
+		if g.P.Index {
+			op.Val = g.ixEvent()
+		}
 	case "ProcessEvent":
 		g.Homogeneous = !g.P.MixedEvents
 		op.Val = g.Fact()
 		g.Homogeneous = false
 		if g.P.Dispatch {
 			op.Val = g.dispatchEvent()
+		}
+		if g.P.Index {
+			op.Val = g.ixEvent()
 		}
 		delete(op.Val, "ttl")
 		delete(op.Val, "expires")
